@@ -145,10 +145,9 @@ var identifierQueries = []struct {
 	t sbom.SoftwareIdentifierType
 }{
 	{"purl", sbom.SoftwareIdentifierType_PURL}, {"cpe22Type", sbom.SoftwareIdentifierType_CPE22}, {"cpe23Type", sbom.SoftwareIdentifierType_CPE23},
-	{"gitoid", sbom.SoftwareIdentifierType_GITOID}, {"cpe22", sbom.SoftwareIdentifierType_CPE22}, {"cpe2.2", sbom.SoftwareIdentifierType_CPE22},
-	{"cpe23", sbom.SoftwareIdentifierType_CPE23}, {"cpe2.3", sbom.SoftwareIdentifierType_CPE23},
-	// (only the spellings the library names itself: the SPDX reference types and its own short names; how lenient the
-	// lookup is towards letter case or blanks is not stated)
+	{"gitoid", sbom.SoftwareIdentifierType_GITOID}, {"cpe22", sbom.SoftwareIdentifierType_CPE22}, {"cpe23", sbom.SoftwareIdentifierType_CPE23},
+	// (only the SPDX reference type names and the names of the identifier types themselves; which other spellings the
+	// lookup understands — aliases, letter case, blanks — is not stated)
 }
 
 func c16Property(t *rapid.T) {
